@@ -21,6 +21,12 @@ THEOREMS = [
     "TornadoModel.C29.cl_equals_encoded_length",
     "TornadoModel.C29.cl_dropped_when_streaming",
     "TornadoModel.C29.decoded_equals_written",
+    "TornadoModel.C29.decoded_per_content_encoding",
+    "TornadoModel.C29.run_transparent",
+    "TornadoModel.C29.run_feed_is_writes",
+    "TornadoModel.C29.wire_content_length_is_encoded_length",
+    "TornadoModel.C29.vary_on_every_response",
+    "TornadoModel.C29.gzip_only_if_accepted",
     "TornadoModel.C29.identity_when_not_compressing",
     "TornadoModel.C29.transformFirst_shape",
 ]
@@ -33,22 +39,30 @@ ASSUMPTIONS = c02.ASSUMPTIONS + [
     "a Content-Encoding set by the handler itself is the handler's business: the client-side decoding check is skipped for it",
     "'mentions gzip' follows the property text: 'gzip;q=0' and 'x-gzip' mention gzip",
 ]
-RULE = ("C02-style programs with chunk sizes around MIN_LENGTH=1024, Content-Type from the whitelist / text/* / with parameters / "
+RULE = ("C02-style programs (incl. invalid / multiple handler-set Content-Length values) with chunk sizes around MIN_LENGTH=1024, Content-Type from the whitelist / text/* / with parameters / "
         "others, Vary and Content-Encoding set by the handler, Accept-Encoding in {absent, gzip, gzip;q=0, identity, GZIP, ...}; "
         "non-trivial = the response was actually compressed and carried data; distinct by canonical JSON")
 EXHAUSTIVE = {"quick": False, "thorough": False}
 CLAUSE_CAVEATS = [
-    "decoded_equals_written is the gzip-writer contract applied to the transform's feed; that the handler's writes are what the transform sees and that the transform's outputs are what the connection frames (HEAD, 304/204, error path, chunking) is decided by the tie with real zlib",
-    'cl_equals_encoded_length covers the finish-in-first-chunk case at transform level',
+    "run_transparent / run_feed_is_writes cover exception-free programs (C02.opClean: no handler-set Content-Length / Transfer-Encoding, body-carrying statuses) on non-HEAD requests without an If-None-Match hit; HEAD, 304/204/1xx, handler-set Content-Length and the error path (send_error re-entering finish) are decided by the tie with real zlib",
+    "decoded_per_content_encoding additionally assumes no handler-set Content-Encoding (opClean29); with one, the client-side decoding is the handler's business (ASSUMPTIONS) and run_transparent still gives the framing + body",
+    "wire_content_length_is_encoded_length (Content-Length on the wire = length of the encoded body) covers clean programs, where the Content-Length is the automatic one rewritten by the transform; a handler-set Content-Length (rewritten when finishing in the first chunk, dropped when streaming: cl_equals_encoded_length / cl_dropped_when_streaming, transform level) is judged on the wire by the C02 framing oracle",
+    "vary_on_every_response speaks about every header block write_headers recorded (and proves the wire starts with it); that nothing is on the wire when no block was recorded (aborted first write) is tie only",
 ]
 CLAUSES = {
     "a client that decodes the body according to Content-Encoding obtains exactly the bytes written":
-        "decoded_equals_written + identity_when_not_compressing (transform level, under the gzip contract); "
-        "tie only: that the chunks fed to the transform are the handler's writes and its outputs are what the connection frames "
-        "(run-level; checked by the oracle with real zlib on every case)",
-    "compression only for compressible types and only when Accept-Encoding mentions gzip": "compress_only_if + not_compressed_passthrough",
-    "Vary always includes Accept-Encoding": "vary_always (every path through transform_first_chunk); tie only: it is called on every first flush incl. error pages",
-    "a Content-Length, when present, equals the encoded body length": "cl_equals_encoded_length + cl_dropped_when_streaming; wire level: C02 framing oracle",
+        "decoded_per_content_encoding (run level, literal: strict client on the model's wire bytes; Content-Encoding header = gzip iff compressed; "
+        "Spec.decodeBody per that header = the program's writes; clean programs without handler Content-Encoding, under the gzip contract) + "
+        "run_transparent (run level: strict client on the model's wire bytes, then gunzip iff the transform compressed, = the program's "
+        "writes; clean programs, all framings, under the gzip contract) + run_feed_is_writes (transform fed exactly the writes, "
+        "closed once at the end; no contract) + decoded_equals_written / identity_when_not_compressing (transform level); "
+        "tie only: HEAD, body-less statuses, handler Content-Length, error path",
+    "compression only for compressible types and only when Accept-Encoding mentions gzip":
+        "compress_only_if + not_compressed_passthrough (the first-chunk decision, any header map) + gzip_only_if_accepted (run level, every program: "
+        "the gzip writer is called / the transform compresses only if Accept-Encoding mentions gzip) + decoded_per_content_encoding "
+        "(clean runs: Content-Encoding gzip on the wire iff the transform compressed); tie only: the Content-Type the client sees is the one the decision used (oracle: C29 decide on the wire headers)",
+    "Vary always includes Accept-Encoding": "vary_on_every_response (run level, every program and request shape incl. error pages / HEAD / 304: every header block write_headers serialises has a Vary line listing Accept-Encoding, and the wire begins with exactly that block) + vary_always (every path through transform_first_chunk)",
+    "a Content-Length, when present, equals the encoded body length": "wire_content_length_is_encoded_length (wire level, clean programs: every Content-Length the strict client sees = length of the body on the wire = the transform's output) + cl_equals_encoded_length + cl_dropped_when_streaming (transform level, any header map incl. handler-set Content-Length); tie only: handler-set Content-Length on the wire (C02 framing oracle)",
 }
 PARALLEL = False   # 1-2 ms per case; forking a pool costs more than it saves
 CASE_TIMEOUT = 20
@@ -95,10 +109,15 @@ def _prog(rng):
             ops.append(["set", "X-Foo", rng.choice(["1", "a\nb"])])
         else:
             ops.append(["finish", _chunk(rng) if rng.random() < 0.6 else None])
-    if rng.random() < 0.25:
+    k = rng.random()
+    if k < 0.25:
         total = len(c02.body_of(ops))
         v = rng.choice([total, total, total, max(0, total - 1), total + 1])
         ops.insert(rng.randint(0, len(ops)), ["set", "Content-Length", str(v)])
+    elif k < 0.37:
+        # a Content-Length parse_int rejects / an unusual one it accepts / several values (C02's stream): flush() must reject
+        # it BEFORE the transform runs, and the error page must then go through a fresh transform
+        c02._insert_odd_cl(rng, ops)
     return ops
 
 
@@ -183,7 +202,9 @@ def spec_violation(case, impl, replies):
 
     def decode(p, hs):
         ce = hs.get("content-encoding")
-        if ce is None or p["body"] == b"":
+        # a response that cannot carry a body (HEAD, 1xx/204/304) has nothing to decode; everywhere else an
+        # empty body under `Content-Encoding: gzip` is NOT a gzip stream and a decoding client fails on it
+        if ce is None or p["delim"] == "noBody":
             return p["body"]
         if handler_ce and not (p["status"] == 500 and (want["status"] != 500 or want["rejected"])):
             return p["body"]
@@ -234,6 +255,9 @@ def stats(case, impl):
     out.append("gzip:%s" % (b"\r\nContent-Encoding: gzip" in head))
     out.append("gzcalls:%d" % min(4, len(impl["tape"])))
     out.append("contract:%s" % impl["contract"])
+    want = c02.intended(case)
+    if c02.cl_invalid(want["headers"]) if "headers" in want else False:
+        out.append("cl:invalid")
     return out
 
 
